@@ -52,7 +52,13 @@ def scenarios(quick):
     t1, t2 = C('tyrving_score', 'M', 15, '100', '12.10'), C('tyrving_score', 'F', 14, 'HJ', 1.5)
     q1, q2 = C('qkids_score', 'QKSEC', '100', '13.5'), C('qkids_score', 'QKWL', 'LJ', 3.2)
     b1, b2 = C('bulgarian_score', 'U16', 'M', '100', '12.5'), C('bulgarian_score', 'U16', 'F', 'LJ', 4.5)
-    add('stateless', [(t1, t2), (q1, q2), (b1, b2)] if quick else [(t1, t2), (q1, q2), (b1, b2), (t2, t1), (t1, q1), (b1, t2)], variants=('warm',))
+    # ... and pairs that share one table row but differ in the mark (hand-timed against electronic for Tyrving): per-call
+    # state kept on an object that a later change shares between calls is then seen (seed C11-g / S11: calculators from
+    # an lru_cache, the timing kind stored on the calculator)
+    t3, t4 = C('tyrving_score', 'F', 15, '100', '13.0'), C('tyrving_score', 'F', 15, '100', '12.50')
+    q3, b3 = C('qkids_score', 'QKSEC', '100', '15.25'), C('bulgarian_score', 'U16', 'M', '100', '11.9')
+    add('stateless', [(t1, t2), (q1, q2), (b1, b2), (t3, t4), (q1, q3), (b1, b3)] if quick else
+        [(t1, t2), (q1, q2), (b1, b2), (t2, t1), (t1, q1), (b1, t2), (t3, t4), (t4, t3), (q1, q3), (b1, b3)], variants=('warm',))
     h1, h2 = C('hungarian_score', 'M', 'OUT', '100', 10.5), C('hungarian_score', 'F', 'IND', 'HJ', 1.8)
     add('hungarian', [(h1, h2), (h1, h1), (h2, h1)])
     s1, s2 = C('sportshall_score', 'SLJ', '2.10'), C('sportshall_score', '800', '150')
@@ -62,8 +68,13 @@ def scenarios(quick):
     w5, w6 = C('wma_age_factor', 'm', 55, '7K'), C('wma_world_best', 'm', '7K')
     w7 = C('wma_age_factor', 'f', 45, '200', year=2015)
     w8 = C('wma_age_factor', 'm', 80, 'HJ', year=2015)
-    add('wma', [(w1, w2), (w1, w1), (w1, w3), (w3, w4), (w5, w2), (w5, w6), (w6, w1), (w3, w5), (w7, w8)] if not quick else
-        [(w1, w2), (w1, w3), (w3, w4), (w5, w6), (w6, w1), (w7, w8)])
+    # neighbouring rows: an untabulated distance is bracketed by the rows of tabulated events, so a call about 11 km
+    # and a call about 10 km touch the same row indices (seed C16-h: the age grade's two locked steps trusted a row
+    # index "already located" across the gap between them)
+    w9, w10 = C('wma_age_grade', 'm', 50, '10K', '40:00'), C('wma_world_best', 'm', '11K')
+    w11, w12 = C('wma_age_factor', 'm', 50, '11K'), C('wma_age_grade', 'm', 50, '11K', '45:00')
+    add('wma', [(w1, w2), (w1, w1), (w1, w3), (w3, w4), (w5, w2), (w5, w6), (w6, w1), (w3, w5), (w7, w8), (w9, w10), (w9, w11), (w12, w9), (w12, w10), (w9, w12)] if not quick else
+        [(w1, w2), (w1, w3), (w3, w4), (w5, w6), (w6, w1), (w7, w8), (w9, w10), (w12, w9)])
     g1, g2, g3 = C('wma_athlon_age_factor', 'M', 50, '100'), C('wma_athlon_age_factor', 'F', 60, 'LJ'), C('wma_athlon_age_grade', 'M', 66, '60H', '9.9')
     add('wma_athlon', [(g1, g2), (g1, g1), (g3, g2)])
     sv = lambda f, v='Draft4Validator', ef=False: C('schema_valid', f, v, ef=ef)
